@@ -286,11 +286,17 @@ def run_property(pid, tier, seed, jobs=None, time_cap=None):
     for (clause, wstr, w, detail, origin) in violations:
         r1 = sorted(f.clause for f in safe_check(prop, w))
         r2 = sorted(f.clause for f in safe_check(prop, w))
-        if r1 != r2 or clause not in r1:
+        if r1 != r2:
             sys.stdout.write('MACHINERY-ERROR property=%s non-deterministic verdict for %s: %s vs %s\n'
                              % (pid, wstr, r1, r2))
             cleanup_tmp()
             return 2
+        if clause not in r1:
+            # Reproducible twice here but different from what the worker saw: the verdict depends on
+            # what the worker process had executed before (state kept between calls by the code
+            # under test - a cache, a shared default object).  That is a violation in its own right.
+            detail = {'seen_in_worker': detail, 'note': 'not reproducible on a fresh process: the result depends on '
+                      'earlier executions in the same process (shared state in the library); first seen on ' + str(origin)}
         replay_paths.append(write_replay(pid, clause, w, wstr, detail, origin))
     sys.stderr = real_stderr
     cleanup_tmp()
